@@ -142,12 +142,50 @@ RESUME_CALLERS = {
 }
 
 
+def _excludes_interrupted(f, cas_calls):
+    """the compare_exchange is not reachable from the edge on which the loaded state equals ThreadState::Interrupted: either
+    an `==`/`!=` against the constant Interrupted whose 'equal' edge avoids it, or a match on ThreadState whose Interrupted
+    arm avoids it"""
+    cas_blocks = {i for i, b in f.calls() if any(b is c for c in cas_calls)}
+    loads = {i for i, b in f.calls() if re.search(r"AtomicCell<T>\}::load$", b["callee"])}
+    # locals holding the constant Interrupted
+    consts = set()
+    for b in f.blocks:
+        for e in b["e"]:
+            if e[0] == "kv" and str(e[2]) == "variant:ThreadState::Interrupted":
+                consts.add(e[1])
+    for i, b in f.calls():
+        m = re.search(r"PartialEq<ThreadState> for ThreadState\}::(eq|ne)$", b["callee"])
+        if not m:
+            continue
+        srcs = set()
+        for a in b["args"]:
+            for t_ in lib.TOK.findall(a):
+                srcs |= {x for s_ in lib.alias_sources(f, t_, depth=4) for x in lib.TOK.findall(s_)} | {t_}
+        if not (srcs & consts):
+            continue
+        t, fl = lib.bool_branch(f, i)
+        eq_edge = t if m.group(1) == "eq" else fl
+        if eq_edge is None:
+            continue
+        reach = f.reachable_from([eq_edge], avoid=loads)
+        if not (reach & cas_blocks):
+            return True
+    for sb in lib.enum_switches(f, "ThreadState"):
+        am = lib.arm_map(f, sb)
+        if "Interrupted" in am and am["Interrupted"] != am.get("_"):
+            reach = f.reachable_from([am["Interrupted"]], avoid=loads)
+            if not (reach & cas_blocks):
+                return True
+    return False
+
+
 def interrupt_sticky_rule(F, R):
     R.rule("C17.f", "a pending interrupt request is cleared only by an explicit resume: (1) ThreadStateController::resume — the "
                     "one operation that unconditionally stores Running — is called only by the host watchdog and the "
                     "thread-resume primitive, never by the stop-the-world protocol or by the VM's own poll; (2) every other "
                     "method of ThreadStateController that stores a state other than Interrupted (pause_for_safepoint, the undo "
-                    "of it) does so by compare_exchange from a value it has compared with Interrupted, not by a plain store; "
+                    "of it) does so by compare_exchange that is not reachable from the edge on which the loaded state equals Interrupted (an == / match against that constant), not by a plain store; "
                     "suspend is exempt (a program's own request). Otherwise an interrupt that arrives while the thread — or "
                     "any other thread — is defining or assigning a global is overwritten before it is seen")
     callers = []
@@ -185,8 +223,7 @@ def interrupt_sticky_rule(F, R):
         n += 1
         loads = [b for _, b in f.calls() if re.search(r"AtomicCell<T>\}::load$", b["callee"]) and b["targs"] and
                  "ThreadState" in b["targs"][0]]
-        cmp_int = bool(loads) and (bool(f.call_blocks(r"PartialEq<ThreadState> for ThreadState\}::(eq|ne)$", wrappers=True)) or
-                                   bool(lib.enum_switches(f, "ThreadState")))
+        cmp_int = bool(loads) and _excludes_interrupted(f, cas)
         R.inst("C17.f", "ThreadStateController::%s preserves a pending interrupt" % nm, not stores and bool(cas) and cmp_int,
                "ThreadStateController::%s stores a thread state unconditionally (AtomicCell::store) instead of exchanging it "
                "from a value it has checked against Interrupted: an interrupt requested just before is overwritten" % nm,
